@@ -353,7 +353,7 @@ theorem inv_forward {s : Sys} {p : Proto} {b0 : Int} (h : Inv s p b0) (k : Nat) 
       by_cases hjk : j = k
       · subst hjk; simp only [if_true]; exact h.sid j hj
       · simp only [hjk, if_false]; exact h.sid j hj
-    · simp only [Sys.setEx, List.length_append, List.length_singleton]
+    · simp only [List.length_append, List.length_singleton]
       rw [hnW, h.wireLen]
     · intro w hw
       simp only [Sys.setEx] at hw ⊢
@@ -397,5 +397,132 @@ theorem inv_run {s : Sys} {p : Proto} {b0 : Int} (h : Inv s p b0) (evs : List Ev
   induction evs generalizing s with
   | nil => exact h
   | cons ev r ih => exact ih (inv_step h ev)
+
+/-! ### honest upstreams: payloads carry the token of their exchange -/
+/-- an upstream that answers what it was asked, along a whole run -/
+def Honest (s : Sys) : List Ev → Prop
+  | [] => True
+  | ev :: r => honest s ev = true ∧ Honest (step s ev) r
+
+theorem honest_of_B (s : Sys) (evs : List Ev) (h : honestB s evs = true) : Honest s evs := by
+  induction evs generalizing s with
+  | nil => trivial
+  | cons ev r ih =>
+    simp only [honestB, Bool.and_eq_true] at h
+    exact ⟨h.1, ih _ h.2⟩
+
+/-- the token of an exchange never changes -/
+theorem step_tok (s : Sys) (ev : Ev) (j : Nat) (hj : j < s.nE) : ((step s ev).ex j).tok = (s.ex j).tok := by
+  cases ev with
+  | request did tok body =>
+    have : j ≠ s.nE := by omega
+    simp [step, this]
+  | forward k =>
+    simp only [step]
+    by_cases hg : k < s.nE ∧ (s.ex k).done = false ∧ (s.ex k).cur = none
+    · rw [if_pos hg]; simp only [Sys.setEx]
+      by_cases hjk : j = k
+      · subst hjk; simp
+      · simp [hjk]
+    · rw [if_neg hg]
+  | reply id tok body =>
+    simp only [step]
+    cases hl : lookup s.up.table (responseKey id) with
+    | none => rfl
+    | some w =>
+      simp only []
+      by_cases hg : (s.ex (s.owner w)).done = false ∧ (s.ex (s.owner w)).cur = some w
+      · rw [if_pos hg]; simp only [Sys.setEx]
+        by_cases hjk : j = s.owner w
+        · subst hjk; simp
+        · simp [hjk]
+      · rw [if_neg hg]
+  | abandon k =>
+    simp only [step]
+    cases hc : (s.ex k).cur with
+    | none => rfl
+    | some w =>
+      simp only []
+      by_cases hg : k < s.nE ∧ (s.ex k).done = false
+      · rw [if_pos hg]; simp only [Sys.setEx]
+        by_cases hjk : j = k
+        · subst hjk; simp
+        · simp [hjk]
+      · rw [if_neg hg]
+  | fail k =>
+    simp only [step]
+    by_cases hg : k < s.nE ∧ (s.ex k).done = false
+    · rw [if_pos hg]; simp only [Sys.setEx]
+      by_cases hjk : j = k
+      · subst hjk; simp
+      · simp [hjk]
+    · rw [if_neg hg]
+  | connReset => rfl
+
+/-- a step writes at most one frame; a payload it writes is the one an honest reply carries for that exchange -/
+theorem step_down {s : Sys} {p : Proto} {b0 : Int} (hi : Inv s p b0) (ev : Ev) :
+    (step s ev).down = s.down ∨ ∃ f0, (step s ev).down = s.down ++ [f0] ∧ f0.ex < s.nE ∧
+      ∀ t, f0.pay = .ok t → honest s ev = true → t = (s.ex f0.ex).tok := by
+  cases ev with
+  | request did tok body => exact Or.inl rfl
+  | forward k =>
+    simp only [step]
+    by_cases hg : k < s.nE ∧ (s.ex k).done = false ∧ (s.ex k).cur = none
+    · rw [if_pos hg]; exact Or.inl rfl
+    · rw [if_neg hg]; exact Or.inl rfl
+  | reply id tok body =>
+    simp only [step, honest]
+    cases hl : lookup s.up.table (responseKey id) with
+    | none => exact Or.inl rfl
+    | some w =>
+      simp only []
+      by_cases hg : (s.ex (s.owner w)).done = false ∧ (s.ex (s.owner w)).cur = some w
+      · rw [if_pos hg]
+        refine Or.inr ⟨_, rfl, hi.ownLt w (hi.tinv.entry _ (lookup_mem _ _ _ hl)).1, ?_⟩
+        intro t ht hh
+        simp at ht; subst ht
+        simpa using hh
+      · rw [if_neg hg]; exact Or.inl rfl
+  | abandon k =>
+    simp only [step]
+    cases hc : (s.ex k).cur with
+    | none => exact Or.inl rfl
+    | some w =>
+      simp only []
+      by_cases hg : k < s.nE ∧ (s.ex k).done = false
+      · rw [if_pos hg]; exact Or.inl rfl
+      · rw [if_neg hg]; exact Or.inl rfl
+  | fail k =>
+    simp only [step]
+    by_cases hg : k < s.nE ∧ (s.ex k).done = false
+    · rw [if_pos hg]
+      refine Or.inr ⟨_, rfl, hg.1, ?_⟩
+      intro t ht; simp at ht
+    · rw [if_neg hg]; exact Or.inl rfl
+  | connReset => exact Or.inl rfl
+
+/-- payloads carry the token of their exchange when the upstream is honest -/
+theorem token_echo (p : Proto) (base : Int) (evs : List Ev) (hh : Honest (init p base) evs) (f : DFrame) (t : Nat) :
+    let s := run (init p base) evs
+    f ∈ s.down → f.pay = .ok t → t = (s.ex f.ex).tok := by
+  have key : ∀ (s : Sys), Inv s p (u64 base) → (∀ f t, f ∈ s.down → f.pay = .ok t → t = (s.ex f.ex).tok) →
+      ∀ evs, Honest s evs → ∀ f t, f ∈ (run s evs).down → f.pay = .ok t → t = ((run s evs).ex f.ex).tok := by
+    intro s hi ht evs
+    induction evs generalizing s with
+    | nil => intro _; exact ht
+    | cons ev r ih =>
+      intro hh
+      apply ih (step s ev) (inv_step hi ev) ?_ hh.2
+      intro f t hf hp
+      rcases step_down hi ev with hd | ⟨f0, hd, hlt, hf0⟩
+      · rw [hd] at hf
+        rw [step_tok s ev _ (hi.frames f hf).1]; exact ht f t hf hp
+      · rw [hd] at hf
+        rcases List.mem_append.mp hf with hf | hf
+        · rw [step_tok s ev _ (hi.frames f hf).1]; exact ht f t hf hp
+        · simp at hf; subst hf
+          rw [step_tok s ev _ hlt]; exact hf0 t hp hh.1
+  intro s hf hp
+  exact key _ (inv_init p base) (fun f t hf _ => by simp [init] at hf) evs hh f t hf hp
 
 end MosnVerif.Model.Correlate
